@@ -384,6 +384,45 @@ func checkC06(c *Ctx) {
 		c.Bad(V1, "threshold", "point-to-point arms", "-", fmt.Sprintf("found %d point-to-point send arms, expected 2 (DKG and signing)", nV))
 	}
 
+	// ------------------------------------------------------------------ V3: party→node maps file a node under ITS party
+	const V3 = "C06.V3"
+	c.Rule(V3, "party→node maps are keyed by the translation of the very node they store", 2)
+	nRev := 0
+	for _, fn := range t.fns {
+		for _, in := range instrsOf(fn) {
+			mu, ok := in.(*ssa.MapUpdate)
+			if !ok {
+				continue
+			}
+			mt, ok := mu.Map.Type().Underlying().(*types.Map)
+			if !ok {
+				continue
+			}
+			ks, okk := spaceOfType(mt.Key())
+			vs, okv := spaceOfType(mt.Elem())
+			if !okk || !okv || ks != spaceP || vs != spaceU {
+				continue
+			}
+			nRev++
+			okDep := t.sl.Slice(mu.Key)[strip(mu.Value)] || t.sl.Slice(mu.Key)[mu.Value]
+			// or key and value are the two components of one map-iteration step
+			if !okDep {
+				ek, ok1 := strip(mu.Key).(*ssa.Extract)
+				ev, ok2 := strip(mu.Value).(*ssa.Extract)
+				if ok1 && ok2 && ek.Tuple == ev.Tuple {
+					if _, isNext := ek.Tuple.(*ssa.Next); isNext {
+						okDep = true
+					}
+				}
+			}
+			c.Check(okDep, V3, FuncName(fn), "entry of a party→node map", m.Pos(mu.Pos()), "key = party of the node stored (computed from it, or the same membership entry)",
+				"a node is filed under a party identifier that is not computed from that node (e.g. two independently ordered lists paired by position): with a membership map that does not preserve order, point-to-point messages go to a node of another party")
+		}
+	}
+	if nRev == 0 {
+		c.Bad(V3, "threshold", "party→node map", "-", "no party→node map is built")
+	}
+
 	// ------------------------------------------------------------------ G1 / O1
 	if translate == nil {
 		c.Fatalf("anchor", "membership.partyIDsByUniversalIDs not found")
